@@ -72,9 +72,9 @@ where
         let (mut invalid_tx, mut invalid_rx) = watch::channel(false);
 
         loop {
+            // Requests are polled in random order, so that neither kind of request
+            // starves while requests of the other kind keep coming.
             tokio::select! {
-                biased;
-
                 // Write value request.
                 res = write_req_rx.recv() => {
                     let WriteRequest {value_tx, new_value_rx, confirm_tx} = match res {
